@@ -416,7 +416,8 @@ class BaseProperty(base.BaseObject):
         2
         3
         """
-        return list(self._values)
+        # odML style tuple values are lists themselves and need to be copied as well.
+        return [list(val) if isinstance(val, list) else val for val in self._values]
 
     @values.setter
     def values(self, new_value):
